@@ -217,11 +217,11 @@ verif_parse_ip(&lease.0)
 expiry.into()
 =>
 expiry as u64
-@@ subst Pool::allocate_address
+@@ subst Pool::allocate_address opt
 std::cmp::min(
 =>
 verif_dur_min(
-@@ subst Pool::allocate_address
+@@ subst Pool::allocate_address opt
 std::cmp::max(
 =>
 verif_dur_max(
